@@ -264,12 +264,24 @@ def iterations(node):
                 if m.get("k") == "match" and m is not n and any("Some" in ((a["pat"].get("path") or {}).get("def") or "") for a in m.get("arms") or []):
                     for a in m["arms"]:
                         if "Some" in ((a["pat"].get("path") or {}).get("def") or ""):
-                            subs = a["pat"].get("subs") or []
-                            names = [b["name"] for b in walk(subs[0])] if subs else []
+                            subs = a["pat"].get("subs") or [x["pat"] for x in (a["pat"].get("fields") or [])]
                             names = [b["name"] for b in walk(subs[0]) if b.get("k") == "bind"] if subs else []
                             out.append((it, names, a["body"], subs[0] if subs else None))
                     break
     return out
+
+
+def element_bind(it, pat):
+    """the plain binding of the element of an iteration: `x`, or `(i, x)` when the iterator ends in enumerate()"""
+    if not isinstance(pat, dict):
+        return None
+    if pat.get("k") == "bind":
+        return pat
+    e = H.peel_ref(it) if isinstance(it, dict) else None
+    if pat.get("k") == "tuple" and len(pat.get("subs") or []) == 2 and all(s.get("k") == "bind" for s in pat["subs"]) and \
+            isinstance(e, dict) and e.get("k") == "mcall" and e["name"] == "enumerate":
+        return pat["subs"][1]
+    return None
 
 
 def base_local(e):
@@ -300,17 +312,18 @@ def check_rows_whole(run, f, cfg, fn, ncalls):
     sinks = {p["pat"]["name"] for p in fn["params"] if p["pat"].get("k") == "bind" and "SqlWriter" in (f.ty(p.get("ty")) or "")}
     its = iterations(arm["body"])
     rows = [(it, names, body, pat) for it, names, body, pat in its if (base_local(it) or {}).get("id") == vb["id"]]
-    if len(rows) != 1 or len(rows[0][1]) != 1 or (rows[0][3] or {}).get("k") != "bind":
+    if len(rows) != 1 or element_bind(rows[0][0], rows[0][3]) is None:
         run.anchor("C10.R4", "rows-loop", "the iteration over the rows of the Values arm was not recognised (%d candidates)" % len(rows), cfg)
         return
     _, rnames, rbody, rpat = rows[0]
-    row_id = rpat["id"]
+    row_id = element_bind(rows[0][0], rpat)["id"]
     # locals that stand for one whole cell: elements of iterations over the row, bound by a plain name
     cell_ids = set()
     for it, names, body, pat in iterations(rbody):
         b = base_local(it)
-        if b is not None and b.get("id") == row_id and isinstance(pat, dict) and pat.get("k") == "bind":
-            cell_ids.add(pat["id"])
+        eb = element_bind(it, pat)
+        if b is not None and b.get("id") == row_id and eb is not None:
+            cell_ids.add(eb["id"])
     n = 0
     for c in walk(rbody):
         if c.get("k") not in ("call", "mcall"):
@@ -337,11 +350,153 @@ def check_rows_whole(run, f, cfg, fn, ncalls):
            sp=fn["sp"], cfg=cfg)
 
 
+# ---- complete tables of values() / select_from() over the length abstraction -------------------------------------------------
+
+IVS = "crate::query::insert::InsertValueSource"
+
+
+def _stmt(f, k, src):
+    from ..interp import Opaque
+    s = {fl["name"]: Opaque(fl["name"]) for fl in f.adts[INS]["variants"][0]["fields"]}
+    s["columns"] = [Opaque("col%d" % i) for i in range(k)]
+    s["source"] = src
+    return s
+
+
+def _is_ok(r, s):
+    from ..interp import Var
+    return (isinstance(r, Var) and r.d.endswith("Result::Ok") and r.fields[0] is s) or (isinstance(r, tuple) and r[0] == "Ok" and r[1] is s)
+
+
+def _err_payload(r):
+    """{col_len, val_len} of an Err(Error::ColValNumMismatch{..}) result, else None"""
+    from ..interp import Var
+    e = None
+    if isinstance(r, Var) and r.d.endswith("Result::Err"):
+        e = r.fields[0]
+    elif isinstance(r, tuple) and r[0] == "Err":
+        e = r[1]
+    if isinstance(e, Var):
+        if not e.d.endswith("ColValNumMismatch"):
+            return None
+        e = e.fields[0] if e.fields else None
+    return e if isinstance(e, dict) and set(e) == {"col_len", "val_len"} else None
+
+
+def _snapshot(s):
+    return (_snapshot_source(s), tuple((k, id(v)) for k, v in sorted(s.items()) if k not in ("source", "columns")))
+
+
+def _snapshot_source(s):
+    src = s["source"]
+    if isinstance(src, tuple) and src[0] == "__some":
+        v = src[1]
+        inner = v.fields[0]
+        return (v.d, [list(r) for r in inner] if isinstance(inner, list) else id(inner))
+    return src
+
+
+def table_values(run, f, cfg):
+    """InsertStatement::values interpreted for every (number of columns, row length, kind of current source) in 0..3:
+    Err(ColValNumMismatch{col_len, val_len}) with the statement untouched iff the lengths differ; otherwise Ok and the row
+    is appended to the VALUES source (which replaces a SELECT source / is created).  Returns False outside the fragment."""
+    from ..interp import Interp, Opaque, Var, Unsupported, Diverged
+    cells = 0
+    bad = []
+    try:
+        for k in range(4):
+            for n in range(4):
+                for kind in ("none", "values", "select"):
+                    old_rows = [[Opaque("old%d" % i) for i in range(k)]]
+                    src = None if kind == "none" else (("__some", Var(IVS + "::Values", [[list(r) for r in old_rows]])) if kind == "values" else
+                                                      ("__some", Var(IVS + "::Select", [Opaque("sel")])))
+                    s = _stmt(f, k, src)
+                    before = _snapshot(s)
+                    cols_before = list(s["columns"])
+                    row = [Opaque("v%d" % i) for i in range(n)]
+                    r = Interp(f).call_fn(VALUES, [s, list(row)])
+                    cells += 1
+                    tag = "columns=%d row=%d source=%s" % (k, n, kind)
+                    same_cols = len(s["columns"]) == len(cols_before) and all(x is y for x, y in zip(s["columns"], cols_before))
+                    if n != k:
+                        ep = _err_payload(r)
+                        ok = ep is not None and ep["col_len"] == k and ep["val_len"] == n and _snapshot(s) == before and same_cols
+                    else:
+                        ok = _is_ok(r, s) and same_cols
+                        if ok and n == 0:
+                            ok = _snapshot(s) == before
+                        elif ok:
+                            now = s["source"]
+                            ok = isinstance(now, tuple) and now[0] == "__some" and now[1].d == IVS + "::Values"
+                            if ok:
+                                rows = now[1].fields[0]
+                                want = ([list(r_) for r_ in old_rows] if kind == "values" else []) + [row]
+                                ok = isinstance(rows, list) and len(rows) == len(want) and \
+                                    all(isinstance(a, list) and len(a) == len(b) for a, b in zip(rows, want)) and \
+                                    all(x is y for x, y in zip(rows[-1], row))
+                                if ok and kind == "values":
+                                    ok = all(isinstance(x, type(y)) and getattr(x, "tag", None) == getattr(y, "tag", None) for x, y in zip(rows[0], old_rows[0]))
+                    if not ok:
+                        bad.append(tag)
+    except (Unsupported, Diverged) as e:
+        run.notes.append("InsertStatement::values outside the interpreter's fragment (%s): MIR dominance rules applied instead" % e)
+        return False
+    run.ob("C10.R1", "values:table", not bad,
+           "values() tabulated on %d cells (columns 0..3 x row length 0..3 x current source): a row of another length is refused with "
+           "ColValNumMismatch{col_len, val_len} and nothing is touched; a row of the right length is appended, in cell order%s" % (
+               cells, "" if not bad else " - EXCEPT " + "; ".join(bad[:6])), sp=f.fns[VALUES]["sp"], cfg=cfg, detail=bad[:20] or None)
+    run.floor("C10.R1", "values-cells", cells, 48, cfg)
+    return True
+
+
+def table_select_from(run, f, cfg):
+    from ..interp import Interp, Opaque, Var, Unsupported, Diverged
+    cells = 0
+    bad = []
+    SEL = "crate::query::select::SelectStatement"
+    try:
+        for k in range(4):
+            for m in range(4):
+                for kind in ("none", "values", "select"):
+                    src = None if kind == "none" else (("__some", Var(IVS + "::Values", [[[Opaque("o%d" % i) for i in range(k)]]])) if kind == "values" else
+                                                      ("__some", Var(IVS + "::Select", [Opaque("sel")])))
+                    s = _stmt(f, k, src)
+                    before = _snapshot(s)
+                    sel = {fl["name"]: Opaque(fl["name"]) for fl in f.adts[SEL]["variants"][0]["fields"]}
+                    sel["selects"] = [Opaque("s%d" % i) for i in range(m)]
+                    it = Interp(f)
+                    it.builtins["core::convert::Into::into"] = lambda it_, a: a[0]
+                    it.builtins["alloc::boxed::Box::<T>::new"] = lambda it_, a: a[0]
+                    r = it.call_fn(SELECT_FROM, [s, sel])
+                    cells += 1
+                    if m != k:
+                        ep = _err_payload(r)
+                        ok = ep is not None and ep["col_len"] == k and ep["val_len"] == m and _snapshot(s) == before
+                    else:
+                        now = s["source"]
+                        ok = _is_ok(r, s) and isinstance(now, tuple) and now[0] == "__some" and \
+                            now[1].d == IVS + "::Select" and now[1].fields[0] is sel
+                    if not ok:
+                        bad.append("columns=%d selects=%d source=%s" % (k, m, kind))
+    except (Unsupported, Diverged) as e:
+        run.notes.append("InsertStatement::select_from outside the interpreter's fragment (%s): MIR dominance rules applied instead" % e)
+        return False
+    run.ob("C10.R1", "select_from:table", not bad,
+           "select_from() tabulated on %d cells: a SELECT with another number of expressions than columns is refused with ColValNumMismatch and nothing "
+           "is touched; otherwise it becomes the source%s" % (cells, "" if not bad else " - EXCEPT " + "; ".join(bad[:6])),
+           sp=f.fns[SELECT_FROM]["sp"], cfg=cfg, detail=bad[:20] or None)
+    run.floor("C10.R1", "select_from-cells", cells, 48, cfg)
+    return True
+
+
 def check(run):
     for cfg in run.tier_configs(["default", "all"]):
         f = run.facts(cfg)
-        check_guarded(run, f, cfg, VALUES, "values")
-        check_guarded(run, f, cfg, SELECT_FROM, "select_from")
+        # complete tables by interpretation; where a body is outside the interpreter's fragment, the MIR dominance rules
+        if not table_values(run, f, cfg):
+            check_guarded(run, f, cfg, VALUES, "values")
+        if not table_select_from(run, f, cfg):
+            check_guarded(run, f, cfg, SELECT_FROM, "select_from")
         check_who_may_write(run, f, cfg)
         check_history(run, f, cfg)
         check_renderer_order(run, f, cfg)
